@@ -188,6 +188,11 @@ inductive QId where
   | alias (a : Alias)
 deriving Repr, DecidableEq
 
+/-- a literal edge id (`QueryId::Id(id)` with `id < 0`) -/
+def QId.isNegLit : QId → Bool
+  | .id i => decide (i < 0)
+  | .alias _ => false
+
 /-- alias part of `Command` (the undo stack) -/
 inductive Cmd where
   | insertAlias (id : Int) (alias : Alias)
@@ -382,8 +387,7 @@ def execWith (fixed : Bool) (db : Db) : DbOp → Db × Out
     | _, _ => (db, errNotFound)
   | .ia ids aliases =>
     if ids.length ≠ aliases.length then (db, .err "Query" "NotEnoughData")
-    else if fixed && (aliases.any Alias.isEmpty
-        || ids.any fun q => match q with | .id i => decide (i < 0) | _ => false) then
+    else if fixed && (aliases.any Alias.isEmpty || ids.any QId.isNegLit) then
       (db, errNotAllowed)
     else
       match iaLoop fixed db (ids.zip aliases) db.al [] 0 with
